@@ -1,6 +1,7 @@
 package rules
 
 import (
+	"sort"
 	"fmt"
 	"go/token"
 	"go/types"
@@ -141,10 +142,47 @@ func RuleDReject(c *core.Ctx) {
 	}
 	cbs := processorLiteral(p, lit)
 	n := 0
-	for name, fn := range cbs {
+	// the callbacks and the helpers of the checker they call: a helper's error
+	// returns are judged in the helper, its callers only pass them on
+	judged := map[*ssa.Function]bool{}
+	var order []*ssa.Function
+	var addFn func(fn *ssa.Function, depth int)
+	addFn = func(fn *ssa.Function, depth int) {
+		if fn == nil || judged[fn] || fn.Blocks == nil || core.PkgPathOf(fn) != pkgCheck || depth > 3 {
+			return
+		}
+		judged[fn] = true
+		order = append(order, fn)
+		core.EachInstr(fn, func(ins ssa.Instruction) {
+			if call, ok := ins.(*ssa.Call); ok {
+				addFn(call.Call.StaticCallee(), depth+1)
+			}
+		})
+	}
+	var cbNames []string
+	for name := range cbs {
+		cbNames = append(cbNames, name)
+	}
+	sort.Strings(cbNames)
+	for _, name := range cbNames {
 		if name == "DayEnd" || name == "DayStart" {
 			continue
 		}
+		addFn(cbs[name], 0)
+	}
+	isDelegated := func(v ssa.Value) bool {
+		// the error of a helper of the checker
+		switch x := v.(type) {
+		case *ssa.Call:
+			return judged[x.Call.StaticCallee()]
+		case *ssa.Extract:
+			if call, ok := x.Tuple.(*ssa.Call); ok {
+				return judged[call.Call.StaticCallee()]
+			}
+		}
+		return false
+	}
+	for _, fn := range order {
 		core.EachInstr(fn, func(ins ssa.Instruction) {
 			ret, ok := ins.(*ssa.Return)
 			if !ok {
@@ -157,6 +195,16 @@ func RuleDReject(c *core.Ctx) {
 				}
 			}
 			if !isErr {
+				return
+			}
+			// an error of a helper passed on unchanged: judged in the helper
+			passed := true
+			for _, rv := range ret.Results {
+				if core.IsErrorType(rv.Type()) && !core.IsNilConst(rv) && !isDelegated(rv) {
+					passed = false
+				}
+			}
+			if passed {
 				return
 			}
 			n++
@@ -174,6 +222,13 @@ func RuleDReject(c *core.Ctx) {
 				if desc, ok := reviewed(iff.Cond); ok {
 					good = append(good, desc)
 					continue
+				}
+				// the error test of a helper of the checker: what it rejects is judged there
+				if bo, ok := iff.Cond.(*ssa.BinOp); ok && (bo.Op == token.NEQ || bo.Op == token.EQL) {
+					if (core.IsNilConst(bo.Y) && isDelegated(bo.X)) || (core.IsNilConst(bo.X) && isDelegated(bo.Y)) {
+						good = append(good, "a helper of the checker succeeded")
+						continue
+					}
 				}
 				// not one of the plain forms: decide on the atoms (sign tests written with
 				// Sign()/Cmp(), helpers such as isOpen(x), conditions of a tagless switch)
